@@ -465,6 +465,48 @@ def decision_model(ctx, repo, rule):
     ctx.floor(rule, "item x block-pair notifications interpreted", n, 12)
 
 
+def reentrant_update_model(ctx, repo, rule):
+    """An observer may react to a notification by writing another item; with a loop-back device model (the simulator, the
+    tests, any echoing connection) that write becomes a NESTED update of the block while the outer update is still
+    notifying.  Both structure classes, built by their constructors with three byte items A, B, C (in that order): the
+    outer update changes A and B; A's observer makes a nested update that changes C.  Each of the three items notifies
+    exactly once, with its own old and new value - the nested update must not disturb what the outer one compares."""
+    from ..absint import ClassRef, Interp, Native, Obj, Opaque, PyRaise, Undecided
+    for sname in ("GeckoStructure", "GeckoAsyncStructure"):
+        scls = repo.cls(sname)
+        rep = repo.method(sname, "replace_status_block_segment")
+        it = Interp(repo, max_depth=14)
+        init = repo.method(sname, "__init__")
+        nargs = len([a for a in init.node.args.args if a.arg != "self"]) - len(init.node.args.defaults)
+        calls = []
+        try:
+            st = it.apply(ClassRef(scls), [Opaque(f"callback{i}") for i in range(nargs)], {})
+            it.call(repo.method(sname, "set_status_block"), st, [bytes(64)])
+            accs = {}
+            for tag, pos in (("A", 10), ("B", 11), ("C", 20)):
+                accs[tag] = it.apply(ClassRef(repo.cls("GeckoByteStructAccessor")), [st, tag, pos, "ALL"], {})
+            it.setattr(st, "accessors", accs)
+
+            def on_a(a, k):
+                calls.append(("A",) + tuple(a[1:]))
+                it.call(rep, st, [20, b"\x05"])         # the reaction: another item is written, the device echoes it at once
+            it.call(repo.method("GeckoByteStructAccessor", "watch"), accs["A"], [Native(on_a, "observer-A")])
+            for tag in ("B", "C"):
+                it.call(repo.method("GeckoByteStructAccessor", "watch"), accs[tag], [Native(lambda a, k, tag=tag: calls.append((tag,) + tuple(a[1:])), f"observer-{tag}")])
+            it.steps = 0
+            it.call(rep, st, [10, b"\x01\x02"])
+        except PyRaise as e:
+            calls.append(("raises", e.what))
+        except Undecided as e:
+            raise AnalysisError(f"{sname}.replace_status_block_segment with a re-entrant observer: {e}")
+        want = {("A", 0, 1), ("B", 0, 2), ("C", 0, 5)}
+        ok = len(calls) == 3 and set(calls) == want
+        ctx.ob(rule, f"{sname}::nested-update-during-notification", ok,
+               f"{sname}: an update changing items A (0->1) and B (0->2) whose A-observer triggers a nested update of item C (0->5): notifications {calls}, expected each of {sorted(want)} exactly once - "
+               f"what the outer update compares must not be disturbed by the nested one (kept per call, not on the object)", rep.loc,
+               sample={"rule": rule, "structure": sname, "notifications": [list(map(str, c)) for c in calls]})
+
+
 def check(ctx):
     repo = Repo()
     ctx.rule("R1", "swap-before-notify in both replace_status_block_segment: previous block captured, new block = exact splice, assignment dominates the notification loop, no suspension")
@@ -479,6 +521,8 @@ def check(ctx):
     ctx.rule("R8", "per received update: what reaches the structure for a partial-update message is that message's changes, each once (C05's message-sequence model on both stacks borrowed) - a handler that replays earlier messages flips unchanged items back and forth, notifying twice for an item that did not change")
     from .c05 import message_sequence_model as _msm
     _msm(ctx.borrowed("R8", "C05"), repo, "R9")
+    ctx.rule("R9", "any sequence of updates, nested ones included: on both structure classes an update whose observer triggers another update of the block (a reaction written through a loop-back device model) still notifies every changed item exactly once with its own old and new value (structures and byte items built by their constructors, the nested call made from inside the observer)")
+    reentrant_update_model(ctx, repo, "R9")
     ctx.rule("R7", "temperatures notify iff the stored reading differs: unit item and temperature item built by their constructors on a model structure, status_block_changed interpreted on block pairs where the unit flips with the word unchanged (silent), the word changes to one presenting the same number under the new unit (one notification), the word changes (one), nothing relevant changes (silent)")
     temperature_notifications(ctx, repo, "R7")
     for c in STRUCT_CLASSES:
